@@ -180,6 +180,9 @@ impl Shadow {
         out
     }
     fn path(&self, i: u64) -> Vec<Digest> {
+        if i >= self.len() {
+            return vec![]; // no such leaf (only reachable from malformed verify_batch_update cases)
+        }
         let (_, h, _) = locate(self.len(), i);
         (0..h as usize).map(|k| self.levels[k][((i >> k) ^ 1) as usize]).collect()
     }
@@ -407,7 +410,9 @@ fn do_op(st: &mut St, tok: &str) -> String {
                 .collect();
             let mut sh2 = st.sh.clone();
             for (i, l) in ivs.iter() {
-                sh2.mutate(*i, *l);
+                if *i < sh2.len() {
+                    sh2.mutate(*i, *l);
+                }
             }
             for a in apps.iter() {
                 sh2.append(*a);
